@@ -349,6 +349,16 @@ end Adsb.Gen
     open(os.path.join(OUT, "panic_sites.txt"), "w").write(panic_sites())
     open(os.path.join(OUT, "shapes.json"), "w").write(json.dumps(shapes, indent=1, sort_keys=True))
     open(os.path.join(OUT, "fns.json"), "w").write(json.dumps(fn_bodies(), indent=1, sort_keys=True))
+    # the pure integer functions, translated to Lean definitions (Gen/Fns.lean); when the source has left the fragment the translator
+    # handles, the generated file states that as an obligation that cannot be met, so that exactly the theorems resting on it fail
+    import rust2lean
+    try:
+        fns = rust2lean.generate(read)
+    except rust2lean.Unsupported as e:
+        fns = ("import Adsb.MiniRust\n/-! GENERATED: tools/rust2lean.py could not translate the current source: %s -/\n"
+               "theorem Adsb.Gen.source_outside_translated_fragment : False := by decide\n" % str(e).replace("-/", "- /"))
+    pf = os.path.join(OUT, "Fns.lean")
+    if not os.path.exists(pf) or open(pf).read() != fns: open(pf, "w").write(fns)
     open(os.path.join(OUT, "panic_sites_apps.txt"), "w").write(panic_sites(APP_FILES))
     print(json.dumps({"tables_sha": hashlib.sha256(lean.encode()).hexdigest()[:16],
                       "layout_sha": hashlib.sha256(lay.encode()).hexdigest()[:16],
